@@ -27,6 +27,7 @@ var helperDest = func() reflect.Type {
 type helperWorld struct {
 	failMode bool
 	ptLog    []int
+	testLog  []int
 }
 
 // a field schema: its version is the code of its failing test; schemas of two different types
@@ -37,8 +38,22 @@ func (w *helperWorld) field(version int) z.ZogSchema {
 	}
 	return z.String().TestFunc(func(v any, ctx z.Ctx) bool { return !w.failMode }, z.IssueCode(fmt.Sprintf("f%d", version)))
 }
+
+// a struct-level test: its id is the code of its issue; some are reported under the key of a field
+// (IssuePath), whether or not a derived schema still has that field
 func (w *helperWorld) test(id int) (z.BoolTFunc, z.TestOption) {
-	return func(v any, ctx z.Ctx) bool { return !w.failMode }, z.IssueCode(fmt.Sprintf("t%d", id))
+	f := func(v any, ctx z.Ctx) bool {
+		if w.failMode {
+			w.testLog = append(w.testLog, id)
+		}
+		return !w.failMode
+	}
+	code := z.IssueCode(fmt.Sprintf("t%d", id))
+	if id%3 == 1 {
+		key := helperKeys[id%len(helperKeys)]
+		return f, func(t *z.Test) { code(t); z.IssuePath(key)(t) }
+	}
+	return f, code
 }
 func (w *helperWorld) pt(id int) z.PostTransform {
 	return func(p any, ctx z.Ctx) error { w.ptLog = append(w.ptLog, id); return nil }
@@ -57,16 +72,22 @@ func (w *helperWorld) observe(s *z.StructSchema) (fields [][2]string, tests, pts
 	for _, k := range helperKeys {
 		full[k] = "x"
 	}
+	w.testLog = nil
 	errs := s.Parse(full, dest.Interface())
+	// the struct tests in the order they ran; every one of them failed, so each has its issue
+	for _, id := range w.testLog {
+		tests = append(tests, fmt.Sprint(id))
+	}
+	nTestIssues := 0
 	for k, is := range errs {
 		switch k {
 		case "$first":
-		case "$root":
-			for _, i := range is {
-				tests = append(tests, strings.TrimPrefix(i.Code, "t"))
-			}
 		default:
 			for _, i := range is {
+				if strings.HasPrefix(i.Code, "t") {
+					nTestIssues++
+					continue
+				}
 				v := strings.TrimPrefix(i.Code, "f")
 				// the issue names the type of the node that is there now
 				if n, err := strconv.Atoi(v); err == nil && i.Dtype != map[bool]string{true: "custom", false: "string"}[n%2 == 1] {
@@ -75,6 +96,9 @@ func (w *helperWorld) observe(s *z.StructSchema) (fields [][2]string, tests, pts
 				fields = append(fields, [2]string{k, v})
 			}
 		}
+	}
+	if nTestIssues != len(w.testLog) {
+		tests = append(tests, "9997") // a struct test ran and failed without an issue of its own (or the reverse)
 	}
 	sort.Slice(fields, func(a, b int) bool { return fields[a][0] < fields[b][0] })
 	w.failMode = false
